@@ -133,7 +133,7 @@ class NsConcWorld(World):
     STUB = ["threading.RLock (simulated, baton scheduler)", "client threads call NameServer methods directly (88% of the plans) or "
             "through a real thread-pool Daemon and Proxies over in-memory sockets with one of the four serializers (12%)"]
     PROBES = ["overlap", "preempted", "safe_register_conflict", "remove_conflict", "naming_error", "sql_storage",
-              "list_during_mutation", "stalled", "commtimeout", "autoclean", "autoclean_removed", "wire", "nameserver_daemon"]
+              "list_during_mutation", "stalled", "commtimeout", "autoclean", "autoclean_removed", "wire", "nameserver_daemon", "bulk_entries"]
     RULE = ("plan = (storage, initial registrations, 2-4 threads x 1-2 operations on names with a common prefix, "
             "pre-emption probabilities); distinct = distinct interleaving digest; non-trivial = at least two operations "
             "overlapped in time and at least one scheduling choice deviated from run-to-block")
@@ -157,6 +157,16 @@ class NsConcWorld(World):
             return plan
         if plan["storage"] == "memory" and rng.random() < 0.08:
             plan["nsdaemon"] = rng.choice(["multiplex", "multiplex", "thread"])
+            return plan
+        if plan["storage"] == "memory" and rng.random() < (0.012 if tier == "thorough" else 0.006):
+            # 'bulk': more than a thousand entries under one prefix are removed in one operation while other clients count, look
+            # up and remove single entries (an implementation that works through big removals in steps shows here)
+            n = rng.choice([1001, 1500, 2100])
+            k = rng.randrange(n)
+            readers = [[{"op": "count"}, {"op": "count"}],
+                       [{"op": rng.choice(["remove", "lookup"]), "name": "blk.%04d" % k, "meta": False}, {"op": "count"}]]
+            plan.update(bulk={"n": n}, threads=[[{"op": "remove", "prefix": "blk."}]] + readers + [[]],
+                        p_line=rng.choice([0.002, 0.01]), p_block=rng.choice([0.5, 1.0]))
             return plan
         if rng.random() < 0.1:
             # the name server's own background thread: NS_AUTOCLEAN on, two registrations whose daemons do not answer.
@@ -336,6 +346,12 @@ class NsConcWorld(World):
             else:
                 ns = NS.NameServer(storage)
             init = {}
+            if plan.get("bulk"):
+                ctx.probe("bulk_entries")
+                for j in range(plan["bulk"]["n"]):
+                    name, u = "blk.%04d" % j, "PYRO:b%d@h:1" % j
+                    ns.storage[name] = (u, frozenset())
+                    init[name] = (u, frozenset())
             if plan.get("nsdaemon") and plan["storage"] == "memory":
                 # (such a name server starts with its own entry)
                 init = {n: (str(u), frozenset(m)) for n, (u, m) in ns.list(return_metadata=True).items()}
